@@ -55,6 +55,9 @@ def main():
         solve.discharge(vcs, timeout_ms=tmo)
         bad = [v for v in vcs if v.status != "unsat"]
         print("%s  paths=%d vcs=%d undischarged=%d  %.1fs" % (key, np, len(vcs), len(bad), time.time() - t0))
+        if os.environ.get("SHOWT"):
+            for v in sorted(vcs, key=lambda v: -v.seconds)[:int(os.environ["SHOWT"])]:
+                print("   t=%.1fs %s %s %s %s" % (v.seconds, v.name, v.status, v.backend, v.tried if v.seconds > 3 else ""))
         for v in bad:
             print("   ", v.name, v.status, "line", v.line, "|", v.detail, "|", v.tried)
             if v.status == "sat" and v.model:
